@@ -83,8 +83,10 @@ func (c Rewards) NewWorker(stats *engine.Stats) (engine.Worker, error) {
 	}
 	xw.AppGenesis = []func(map[string]json.RawMessage){func(g map[string]json.RawMessage) {
 		cdc := appConsumer.MakeTestEncodingConfig().Codec
-		acc := authtypes.NewBaseAccount(w.payer.Addr, w.payer.Priv.PubKey(), 0, 0)
-		g[authtypes.ModuleName] = cdc.MustMarshalJSON(authtypes.NewGenesisState(authtypes.DefaultParams(), []authtypes.GenesisAccount{acc}))
+		// account 0 is the relayer (it signs the IBC messages of the conformance replay), account 1 pays fees
+		rel := authtypes.NewBaseAccount(env.Relayer.Addr, env.Relayer.Priv.PubKey(), 0, 0)
+		acc := authtypes.NewBaseAccount(w.payer.Addr, w.payer.Priv.PubKey(), 1, 0)
+		g[authtypes.ModuleName] = cdc.MustMarshalJSON(authtypes.NewGenesisState(authtypes.DefaultParams(), []authtypes.GenesisAccount{rel, acc}))
 		g[banktypes.ModuleName] = cdc.MustMarshalJSON(banktypes.NewGenesisState(banktypes.DefaultParams(), []banktypes.Balance{{Address: w.payer.Addr.String(),
 			Coins: sdk.NewCoins(sdk.NewInt64Coin(feeDenom, 1_000_000_000), sdk.NewInt64Coin(otherDenom, 1_000_000_000))}}, nil, nil, nil))
 	}}
@@ -142,14 +144,18 @@ func (c Rewards) NewWorker(stats *engine.Stats) (engine.Worker, error) {
 	}
 	n.touchP()
 	other := sdk.NewCoins(sdk.NewInt64Coin(w.ibcD, 55))
-	if err := p.PApp.BankKeeper.MintCoins(n.P.Ctx, minttypes.ModuleName, other); err != nil {
-		return nil, err
-	}
-	if err := p.PApp.BankKeeper.SendCoinsFromModuleToModule(n.P.Ctx, minttypes.ModuleName, providertypes.ConsumerRewardsPool, other); err != nil {
-		return nil, err
-	}
-	if err := p.K.SetConsumerRewardsAllocationByDenom(n.P.Ctx, "1", w.ibcD, providertypes.ConsumerRewardsAllocation{Rewards: sdk.NewDecCoinsFromCoins(other...)}); err != nil {
-		return nil, err
+	ibcD := w.ibcD
+	if err, pan := n.P.Raw("fixture-credit", func(app env.ABCIApp, ctx sdk.Context) error {
+		pa := env.PA(app)
+		if err := pa.BankKeeper.MintCoins(ctx, minttypes.ModuleName, other); err != nil {
+			return err
+		}
+		if err := pa.BankKeeper.SendCoinsFromModuleToModule(ctx, minttypes.ModuleName, providertypes.ConsumerRewardsPool, other); err != nil {
+			return err
+		}
+		return pa.ProviderKeeper.SetConsumerRewardsAllocationByDenom(ctx, "1", ibcD, providertypes.ConsumerRewardsAllocation{Rewards: sdk.NewDecCoinsFromCoins(other...)})
+	}); err != nil || pan != "" {
+		return nil, fmt.Errorf("fixture credit: %v %s", err, pan)
 	}
 	w.seeded = 55
 	w.root = n
@@ -188,7 +194,10 @@ func (w *rwWorker) build() {
 			c.touchC("0")
 			s := c.C["0"]
 			// what the ante handler's fee deduction does
-			err := w.w.CA.CApp.BankKeeper.SendCoinsFromAccountToModule(s.Ctx, w.payer.Addr, authtypes.FeeCollectorName, sdk.NewCoins(sdk.NewInt64Coin(f.denom, f.amt)))
+			payer := w.payer.Addr
+			err, _ := s.Raw("fee-deduction", func(app env.ABCIApp, ctx sdk.Context) error {
+				return app.(*appConsumer.App).BankKeeper.SendCoinsFromAccountToModule(ctx, payer, authtypes.FeeCollectorName, sdk.NewCoins(sdk.NewInt64Coin(f.denom, f.amt)))
+			})
 			if err != nil {
 				return nil, nil
 			}
@@ -274,13 +283,19 @@ func (w *rwWorker) build() {
 		c := x.clone()
 		c.touchC("0")
 		s := c.C["0"]
-		ck := w.w.CA.CApp.IBCKeeper.ChannelKeeper
-		ch, ok := ck.GetChannel(s.Ctx, "transfer", c.L["0"].XCChan)
-		if !ok {
+		xc := c.L["0"].XCChan
+		if err, _ := s.Raw("counterparty-closed-transfer-channel", func(app env.ABCIApp, ctx sdk.Context) error {
+			ck := env.IBCK(app).ChannelKeeper
+			ch, ok := ck.GetChannel(ctx, "transfer", xc)
+			if !ok {
+				return fmt.Errorf("no channel")
+			}
+			ch.State = channeltypes.CLOSED
+			ck.SetChannel(ctx, "transfer", xc, ch)
+			return nil
+		}); err != nil {
 			return nil, nil
 		}
-		ch.State = channeltypes.CLOSED
-		ck.SetChannel(s.Ctx, "transfer", c.L["0"].XCChan, ch)
 		c.C["0"] = s
 		c.Closed = true
 		return c, nil
@@ -656,3 +671,5 @@ func (w *rwWorker) pblock(x *rwNode) (engine.Node, []V) {
 
 var _ = strings.TrimSpace
 var _ = time.Second
+
+func (w *rwWorker) XWorldForTier2() *XWorld { return w.w }
